@@ -44,6 +44,14 @@ def corruption_lines(kind, rng_word):
         "unterminated-macro": ([".macro UM_%s" % w, ".db 1"], True, True),
         "unterminated-comment": (["/* never closed"], True, True),
         "unterminated-repeat": ([".repeat 2", ".db 1"], True, True),
+        # limits: "too many nested macros" cannot be assembled; what follows must not be emitted as if nothing happened
+        "define-self": ([".define RS_%s RS_%s" % (w, w), ".db RS_%s" % w, ".db 7"], True, False),
+        "define-mutual": ([".define RA_%s RB_%s" % (w, w), ".define RB_%s RA_%s" % (w, w), ".db RA_%s" % w, ".db 7"], True, False),
+        "define-chain-129": ([".define ZC0_%s 1" % w] + [".define ZC%d_%s ZC%d_%s" % (i, w, i - 1, w) for i in range(1, 131)] +
+                             [".db ZC130_%s" % w, ".db 7"], True, False),
+        "define-chain-stmt": ([".define ZS0_%s .db 5" % w] + [".define ZS%d_%s ZS%d_%s" % (i, w, i - 1, w) for i in range(1, 131)] +
+                              ["ZS130_%s" % w, ".db 7"], True, False),
+        "macro-recursive": ([".macro RM_%s" % w, ".db 1", "RM_%s" % w, ".endm", "RM_%s" % w, ".db 7"], True, False),
         # consistency only (may happen to form another valid statement)
         "db-trailing-comma": ([".db 1,"], False, False),
         "db-empty": ([".db"], False, False),
@@ -57,12 +65,13 @@ KINDS = ["unknown-mnemonic", "undefined-symbol", "undefined-symbol-dw", "out-of-
          "missing-include", "missing-binfile", "unterminated-quote", "ifdef-no-label", "if-no-expression",
          "if-bad-expression", "unterminated-if", "unterminated-ifdef", "stray-else", "stray-endif", "stray-endr",
          "stray-endm", "unterminated-macro", "unterminated-comment", "unterminated-repeat",
+         "define-self", "define-mutual", "define-chain-129", "define-chain-stmt", "macro-recursive",
          "db-trailing-comma", "db-empty", "define-empty", "operand-drop", "operand-extra", "truncate"]
 PLACES = ["top", "in-macro", "in-include", "in-repeat", "in-if", "in-nested-if", "in-else", "in-ifdef", "in-deep-if"]
 STRUCT_PLACES = ["top", "in-include", "at-end"]
 
-DIRECTED = [(k, p) for k in KINDS[:25] for p in PLACES if not corruption_lines(k, "x")[2]] + \
-           [(k, p) for k in KINDS[:25] for p in STRUCT_PLACES if corruption_lines(k, "x")[2]]
+DIRECTED = [(k, p) for k in KINDS[:30] for p in PLACES if not corruption_lines(k, "x")[2]] + \
+           [(k, p) for k in KINDS[:30] for p in STRUCT_PLACES if corruption_lines(k, "x")[2]]
 
 ERR_LINE = re.compile(r"Error")
 FAIL_DIAG = re.compile(r"Error|Cannot open|Couldn't open|Unknown |Failed|bailing|not supported|No input|Usage")
